@@ -1,3 +1,5 @@
 pub mod dhcp_hist;
 pub mod c12;
 pub mod c14;
+pub mod c04;
+pub mod c05;
